@@ -337,10 +337,10 @@ def corpora(factory, cid, seed):
                     MISSING,
                     _M("M"),
                     _M("M2"),
+                    _M("M3", d=0),
                     _M("M", a=0),
                     _M("M2", b=0),
                     _M("M2", a=i1),
-                    _M("M3", d=0),
                     _M("M", a=i1),
                     _M("M2", a=0, b=i1),
                     _M("M3", a=i1, b=0),
@@ -608,7 +608,45 @@ def harvester_class(cid):
     return H
 
 
+_HV_BUILDS = [0]
+
+
+def _hygiene():
+    """Bound memory/time of long runs: every `schemas[name]` access makes a new throw-away
+    ("version unspecified"-marked) subclass plus a new partial class for it, which the partial
+    factory then keeps forever.  These are never looked up again, so dropping them cannot change
+    any result; if the internals look different, nothing is done.
+    """
+    _HV_BUILDS[0] += 1
+    if _HV_BUILDS[0] % 256:
+        return
+    try:
+        import gc
+
+        import metador_core.schema.partial as mp
+        from metador_core.plugin.metaclass import UndefVersion
+
+        ours = set(_PY["schema"].values())
+        for d in mp._partials.values():
+            for k in [k for k in d if UndefVersion._is_marked(k) and UndefVersion._unwrap(k) in ours]:
+                del d[k]
+        # pure functools caches keyed by those throw-away classes
+        import metador_core.schema.core as mcore
+
+        for fn in (
+            getattr(mcore.SchemaMagic._typehints, "fget", None),
+            getattr(mcore.SchemaMagic._base_typehints, "fget", None),
+            getattr(mcore, "make_schema_inspector", None),
+        ):
+            if hasattr(fn, "cache_clear"):
+                fn.cache_clear()
+        gc.collect()
+    except Exception:  # noqa: BLE001
+        pass
+
+
 def make_harvester(cid, spec):
+    _hygiene()
     h = harvester_class(cid)()
     h._c14_spec = spec
     return h
@@ -741,11 +779,17 @@ class Conflict(Exception):
     pass
 
 
-def ref_merge(a, b, overwrite, equal_is_conflict=True, _path=()):
+def ref_merge(a, b, overwrite, equal_is_conflict=True, nested_class="left", _path=()):
     """Documented merge of two specs (partial.py: module + `_check_type_mergeable` docstrings,
     `_update_field`, `merge_with`): missing is neutral; lists concatenate in order; sets unite;
-    nested models of related classes merge recursively (keeping the left class); everything else
-    is a singular value: the new one overwrites if permitted, else the merge raises.
+    nested models of related classes merge recursively; everything else is a singular value: the
+    new one overwrites if permitted, else the merge raises.
+
+    `nested_class`: class of a recursively merged nested value - "left" (module docstring: "the
+    merge will produce an instance of the left type") or "specific" (the subclass of the two).
+    The class is not part of the observed value; it only decides what a *later* merge with an
+    unrelated sibling class does, which the property leaves open - for classes on one inheritance
+    chain both choices give the same values.
     """
     out = dict(a)
     for f, vb in b.items():
@@ -760,7 +804,9 @@ def ref_merge(a, b, overwrite, equal_is_conflict=True, _path=()):
         elif isinstance(va, dict) and "S" in va:
             out[f] = {"S": sorted(set(va["S"]) | set(vb["S"]))}
         elif isinstance(va, dict) and "M" in va and related(va["M"], vb["M"]):
-            out[f] = {"M": va["M"], "f": ref_merge(va["f"], vb["f"], overwrite, equal_is_conflict, _path + (f,))}
+            cls = va["M"] if nested_class == "left" or vb["M"] in ancestors(va["M"]) else vb["M"]
+            sub = ref_merge(va["f"], vb["f"], overwrite, equal_is_conflict, nested_class, _path + (f,))
+            out[f] = {"M": cls, "f": sub}
         elif not equal_is_conflict and canon(_plain_v(va, False)) == canon(_plain_v(vb, False)):
             pass
         elif not overwrite:
@@ -768,25 +814,3 @@ def ref_merge(a, b, overwrite, equal_is_conflict=True, _path=()):
         else:
             out[f] = vb
     return out
-
-
-def ref_outcomes(specs, overwrite):
-    """Acceptable outcomes of folding the specs left to right.
-
-    The property says a *conflicting* merge raises; the pinned upstream test additionally requires
-    that providing an *equal* scalar twice raises ("cannot overwrite 'a' with 'a'").  Both readings
-    lose no value, so either is accepted: returns the list of acceptable outcomes
-    [("ok", canon, merged spec) | ("err", None, path of the conflict)], strict reading first.
-    """
-    outs = []
-    for strict in (True, False):
-        try:
-            acc = {}
-            for s in specs:
-                acc = ref_merge(acc, s, overwrite, equal_is_conflict=strict)
-            o = ("ok", canon(plain(acc)), acc)
-        except Conflict as c:
-            o = ("err", None, c.args[0])
-        if not any(o[:2] == p[:2] for p in outs):
-            outs.append(o)
-    return outs
